@@ -110,7 +110,7 @@ def _push_post_others(s):
 spec.contract(
     'HeapDict.push',
     params={'key': TOpaque('Key'), 'item': TOpaque('Item')},
-    modifies=['self._result'],
+    modifies=['self._result', '@lheap'],
     props=('C14', 'C03'),
     requires=[('wf', lambda s: wf(unwrap(s.self._result), s.lheap))],
     ensures=[
@@ -171,7 +171,7 @@ spec.contract(
     'HeapDict.get_result',
     params={},
     result=lc.TDDL(False),
-    modifies=[],
+    modifies=['@lheap'],      # new list objects are allocated; old ones kept
     props=('C14', 'C03', 'C10'),
     locals_shapes={'result': lc.TDDL(False)},
     requires=[('wf', lambda s: wf(unwrap(s.self._result), s.lheap))],
